@@ -177,11 +177,11 @@ func excludeS(s *Schema, glob []string) (err error) {
 	return nil
 }
 
-func excludeT(t *Table, pattern string) (err error) {
+func excludeT(t *Table, pattern string) error {
 	ex := make(map[*Index]struct{})
 	ef := make(map[*ForeignKey]struct{})
 	if p, exclude := excludeType(typeC, pattern); exclude {
-		t.Columns, err = filter(t.Columns, func(c *Column) (bool, error) {
+		columns, err := filter(t.Columns, func(c *Column) (bool, error) {
 			match, err := filepath.Match(p, c.Name)
 			if !match || err != nil {
 				return false, err
@@ -194,30 +194,46 @@ func excludeT(t *Table, pattern string) (err error) {
 			}
 			return true, nil
 		})
+		if err != nil {
+			return err
+		}
+		t.Columns = columns
 	}
 	if p, exclude := excludeType(typeI, pattern); exclude {
-		t.Indexes, err = filter(t.Indexes, func(idx *Index) (bool, error) {
+		indexes, err := filter(t.Indexes, func(idx *Index) (bool, error) {
 			if _, ok := ex[idx]; ok {
 				return true, nil
 			}
 			return filepath.Match(p, idx.Name)
 		})
+		if err != nil {
+			return err
+		}
+		t.Indexes = indexes
 	}
 	if p, exclude := excludeType(typeF, pattern); exclude {
-		t.ForeignKeys, err = filter(t.ForeignKeys, func(fk *ForeignKey) (bool, error) {
+		fks, err := filter(t.ForeignKeys, func(fk *ForeignKey) (bool, error) {
 			if _, ok := ef[fk]; ok {
 				return true, nil
 			}
 			return filepath.Match(p, fk.Symbol)
 		})
+		if err != nil {
+			return err
+		}
+		t.ForeignKeys = fks
 	}
 	if p, exclude := excludeType(typeTg, pattern); exclude {
-		t.Triggers, err = filter(t.Triggers, func(t *Trigger) (bool, error) {
+		triggers, err := filter(t.Triggers, func(t *Trigger) (bool, error) {
 			return filepath.Match(p, t.Name)
 		})
+		if err != nil {
+			return err
+		}
+		t.Triggers = triggers
 	}
 	if p, exclude := excludeType(typeK, pattern); exclude {
-		t.Attrs, err = filter(t.Attrs, func(a Attr) (bool, error) {
+		attrs, err := filter(t.Attrs, func(a Attr) (bool, error) {
 			c, ok := a.(*Check)
 			if !ok {
 				return false, nil
@@ -228,26 +244,38 @@ func excludeT(t *Table, pattern string) (err error) {
 			}
 			return true, nil
 		})
+		if err != nil {
+			return err
+		}
+		t.Attrs = attrs
 	}
-	return
+	return nil
 }
 
-func excludeV(v *View, pattern string) (err error) {
+func excludeV(v *View, pattern string) error {
 	if p, exclude := excludeType(typeC, pattern); exclude {
-		v.Columns, err = filter(v.Columns, func(c *Column) (bool, error) {
+		columns, err := filter(v.Columns, func(c *Column) (bool, error) {
 			match, err := filepath.Match(p, c.Name)
 			if !match || err != nil {
 				return false, err
 			}
 			return true, nil
 		})
+		if err != nil {
+			return err
+		}
+		v.Columns = columns
 	}
 	if p, exclude := excludeType(typeTg, pattern); exclude {
-		v.Triggers, err = filter(v.Triggers, func(t *Trigger) (bool, error) {
+		triggers, err := filter(v.Triggers, func(t *Trigger) (bool, error) {
 			return filepath.Match(p, t.Name)
 		})
+		if err != nil {
+			return err
+		}
+		v.Triggers = triggers
 	}
-	return
+	return nil
 }
 
 // SpecTypeNamer is an interface that allows to get the spec type and name of the object.
